@@ -62,6 +62,10 @@ type evt struct {
 	oldV  []any
 	newV  []any
 	stmt  int // statement that produced it (reference side)
+	// reference side, for naming the column-name findings only: did the table
+	// exist at the last commit before this event, and with which columns
+	txCreated     bool
+	committedCols []string
 }
 
 func (e evt) String() string {
@@ -507,11 +511,9 @@ type refRun struct {
 	groups      [][]evt // truth, unfiltered, with values, empty groups removed
 	dGroups     [][]evt // what a never-forgetting streamer would emit
 	results     []sqlref.RefRes
-	selfCheck   string              // non-empty: the reference's own events disagree with the row images
-	failedTouch int                 // raw events fired by statements that then failed
-	rolledBack  int                 // events dropped by an explicit/executor ROLLBACK
-	created     map[string]bool     // tables that did not exist at the last commit before the event's commit
-	altered     map[string][]string // tables whose column list at the last commit differs: committed columns
+	selfCheck   string // non-empty: the reference's own events disagree with the row images
+	failedTouch int    // raw events fired by statements that then failed
+	rolledBack  int    // events dropped by an explicit/executor ROLLBACK
 	stmtsOK     int
 	stmtsFailed int
 	intForReal  int // after-images where SQLite's hook typed an integral REAL as integer
@@ -521,7 +523,7 @@ type refRun struct {
 func (t *twin) runRef(req *sqlref.RefReq) (*refRun, error) {
 	m := t.mon
 	m.resetForRequest()
-	out := &refRun{created: map[string]bool{}, altered: map[string][]string{}}
+	out := &refRun{}
 	committed, err := takeImage(t.ref.Conn)
 	if err != nil {
 		return nil, err
@@ -542,16 +544,11 @@ func (t *twin) runRef(req *sqlref.RefReq) (*refRun, error) {
 		for closed < len(m.groups) {
 			g := m.groups[closed]
 			closed++
-			for name, cols := range now.cols {
-				if committed.cols[name] == nil {
-					out.created[name] = true
-				} else if !reflect.DeepEqual(committed.cols[name], cols) {
-					out.altered[name] = committed.cols[name]
-				}
-			}
 			for i := range g {
 				if g[i].Cols == nil { // events of the committing statement itself
 					g[i].Cols = now.cols[g[i].Table]
+					g[i].committedCols = committed.cols[g[i].Table]
+					g[i].txCreated = g[i].committedCols == nil
 				}
 			}
 			if d := replayGroup(committed, now, g, dropped); d != "" && out.selfCheck == "" {
@@ -601,6 +598,8 @@ func (t *twin) runRef(req *sqlref.RefReq) (*refRun, error) {
 			}
 			for k := range m.cur { // column names as of the statement that made the change
 				m.cur[k].Cols = now.cols[m.cur[k].Table]
+				m.cur[k].committedCols = committed.cols[m.cur[k].Table]
+				m.cur[k].txCreated = m.cur[k].committedCols == nil
 			}
 			m.pending = append(m.pending, m.cur...)
 			m.cur = nil
@@ -1040,11 +1039,11 @@ func (t *twin) columnsOnly(want, got [][]evt, rr *refRun) string {
 				continue
 			}
 			switch {
-			case rr.created[w.Table] && g.Err != "" && len(g.Cols) == 0:
+			case w.txCreated && g.Err != "" && len(g.Cols) == 0:
 				if key == "" {
 					key = keyColsCreated
 				}
-			case rr.altered[w.Table] != nil && g.Err == "" && reflect.DeepEqual(g.Cols, rr.altered[w.Table]):
+			case !w.txCreated && g.Err == "" && !reflect.DeepEqual(w.committedCols, w.Cols) && reflect.DeepEqual(g.Cols, w.committedCols):
 				key = keyColsAltered
 			case g.Err == "" && w.Err == "" && t.seenBefore(w.Table, g.Cols):
 				// the names are those the table had at an earlier commit
